@@ -151,6 +151,35 @@ def _apply_block(text, first_line, relpath, directives, tmpl_file, log, stub):
         raise ExtractError('fn without body')
     body_close = lex.match_bracket(msk, body_open)
     inserts = []  # (offset, [Line...], extra_text_before) ; offset into text
+    # D8: name the return value `-> T`  =>  `-> (r: T)` (Verus needs a name to state a postcondition)
+    ret = [d.get('ret') for d in directives if d['kind'] == 'contract' and d.get('ret')]
+    if ret:
+        sig = msk[m.end():body_open]
+        ar = None
+        j = m.end()
+        while j < body_open:
+            c = msk[j]
+            if c in lex.OPEN:
+                j = lex.match_bracket(msk, j) + 1
+                continue
+            if msk.startswith('->', j):
+                ar = j
+                break
+            j += 1
+        if ar is None:
+            raise ExtractError('ret= given but fn has no return type')
+        wm = re.compile(r'\bwhere\b').search(msk, ar, body_open)
+        tend = wm.start() if wm else body_open
+        ty = text[ar + 2:tend]
+        lead = len(ty) - len(ty.lstrip())
+        core = ty.strip()
+        trail = ty[lead + len(core):]
+        newty = ty[:lead] + '(' + ret[0] + ': ' + core + ')' + trail
+        text = text[:ar + 2] + newty + text[tend:]
+        log.append(('D8', 'return value named: -> (%s: %s)' % (ret[0], core), text.count('\n', 0, ar)))
+        msk = lex.mask(text)
+        body_open = lex.find_at_depth0(msk, m.end(), len(msk), '{;')
+        body_close = lex.match_bracket(msk, body_open)
     for d in directives:
         k = d['kind']
         if k == 'contract':
@@ -296,7 +325,8 @@ def assemble(unit_name, repo=None):
                         i += 1
                         break
                     if c2 == 'contract':
-                        cur = {'kind': 'contract', 'lines': []}
+                        p2, kv2 = _kv(r2.split())
+                        cur = {'kind': 'contract', 'lines': [], 'ret': kv2.get('ret')}
                     elif c2 == 'loop':
                         p2, kv2 = _kv(r2.split())
                         cur = {'kind': 'loop', 'k': int(p2[0]), 'iter': kv2.get('iter'),
